@@ -25,6 +25,12 @@ func vsNewWorkSpace(dbType string, rootDir string, ordinal int64, pubKey *pocec.
 	d := &vsDB{bl: bitLength, pk: pubKey}
 	ws := &WorkSpace{id: &SpaceID{pubKey: pubKey, bitLength: bitLength, ordinal: ordinal, str: "new"}, db: d, state: engine.Registered, rootDir: rootDir}
 	vsCreated = append(vsCreated, ws)
+	// within the stated bound on the amount to generate no request needs more than a dozen new spaces: a run that creates
+	// more has lost track of the size it is filling (reported, and the runaway path is cut here)
+	if len(vsCreated) > 12 {
+		vsAssert(false, "creates-more-spaces-than-the-request-can-need")
+		vsAssume(false)
+	}
 	return ws, nil
 }
 
